@@ -19,9 +19,69 @@ import (
 // (SSA has no common-subexpression elimination). Unknown shapes get a unique name.
 func AccessPath(v ssa.Value) string { return accessPath(v, 0) }
 
+// LeafOverride, when set, is asked first for every value met while a path is rendered: a rule that judges a
+// helper's code in the context of one call binds the helper's parameters (and captured variables) to what the
+// caller passes. Use WithBindings rather than setting it directly.
+var LeafOverride func(v ssa.Value) (string, bool)
+
+// WithBindings renders v with the given values replaced by the paths of the values they are bound to.
+func WithBindings(v ssa.Value, env map[ssa.Value]ssa.Value) string {
+	if len(env) == 0 {
+		return AccessPath(v)
+	}
+	old := LeafOverride
+	var hook func(x ssa.Value) (string, bool)
+	hook = func(x ssa.Value) (string, bool) {
+		if b, ok := env[x]; ok && b != x {
+			LeafOverride = old
+			s := AccessPath(b)
+			LeafOverride = hook
+			return s, true
+		}
+		// the value of a captured variable: *freevar; or of a parameter spilled into a cell (because a closure captures it)
+		if u, ok := x.(*ssa.UnOp); ok && u.Op == token.MUL {
+			if fv, isFV := u.X.(*ssa.FreeVar); isFV {
+				if b, ok := env[fv]; ok {
+					LeafOverride = old
+					s := AccessPath(b)
+					LeafOverride = hook
+					return s, true
+				}
+			}
+			if cell, isCell := u.X.(*ssa.Alloc); isCell && cell.Referrers() != nil {
+				var stored ssa.Value
+				n := 0
+				for _, ref := range *cell.Referrers() {
+					if st, ok := ref.(*ssa.Store); ok && st.Addr == ssa.Value(cell) {
+						stored = st.Val
+						n++
+					}
+				}
+				if n == 1 {
+					if b, ok := env[stored]; ok && b != stored {
+						LeafOverride = old
+						s := AccessPath(b)
+						LeafOverride = hook
+						return s, true
+					}
+				}
+			}
+		}
+		return "", false
+	}
+	LeafOverride = hook
+	defer func() { LeafOverride = old }()
+	return AccessPath(v)
+}
+
 func accessPath(v ssa.Value, depth int) string {
 	if depth > 12 {
 		return uniqueName(v)
+	}
+	if LeafOverride != nil {
+		if s, ok := LeafOverride(v); ok {
+			return s
+		}
 	}
 	switch x := v.(type) {
 	case *ssa.Parameter:
